@@ -7,7 +7,7 @@
    True - so `if $allowed == False` (None passes) does not check; and on the true branch the rail
    refuses and stops / aborts, for both settings of enable_rails_exceptions. *)
 From Coq Require Import List String Bool ZArith.
-From NG Require Import Pipe.FlowCheck Pipe.FlowCheck_proofs Pipe.Options Pipe.OptGuards Gen.C01Flows Gen.C03Guards.
+From NG Require Import Pipe.FlowCheck Pipe.FlowCheck_proofs Pipe.OptGuards Gen.C01Flows Gen.C03Guards.
 Import ListNotations.
 Open Scope string_scope.
 Open Scope list_scope.
